@@ -377,12 +377,23 @@ fn scenario_oplog(sc: &str) -> Result<Violations, String> {
     let dir = std::env::var("NUN_DBS_DIR").map_err(|_| "NUN_DBS_DIR not set")?;
     let _ = std::fs::remove_dir_all(format!("{}/oplog", dir));
     let mut bytes: Vec<u8> = vec![];
-    let rec = |i: usize| -> (u64, u64, u8) { (1 + (i % 2) as u64, 10 + ((i / 2) % 2) as u64, (i % 4) as u8) };
+    // rotated scenarios use two keys of one database so that a key has records of different kinds in different files
+    let rotated = p.len() > 2;
+    let rec = |i: usize| -> (u64, u64, u8) { if rotated { (1, 10 + (i % 2) as u64, (i % 4) as u8) } else { (1 + (i % 2) as u64, 10 + ((i / 2) % 2) as u64, (i % 4) as u8) } };
     for (i, t) in times.iter().enumerate() {
         let (db, key, op) = rec(i);
         bytes.extend_from_slice(&t.to_le_bytes()); bytes.extend_from_slice(&key.to_le_bytes()); bytes.extend_from_slice(&db.to_le_bytes()); bytes.push(op);
     }
-    std::fs::write(format!("{}/oplog-nun.op", dir), &bytes).map_err(|e| e.to_string())?;
+    // optional third field: cut positions - the records before each cut are in rotated files (oldest first, created in that order), the rest in the live file
+    let cuts: Vec<usize> = if p.len() > 2 { p[2].split('.').filter(|x| !x.is_empty()).map(|x| x.parse().unwrap()).collect() } else { vec![] };
+    let mut start = 0usize;
+    if !cuts.is_empty() { std::fs::create_dir_all(format!("{}/oplog", dir)).map_err(|e| e.to_string())?; }
+    for (n, c) in cuts.iter().enumerate() {
+        std::fs::write(format!("{}/oplog/oplog-nun-{}.op", dir, 1000 + n), &bytes[start * 25..c * 25]).map_err(|e| e.to_string())?;
+        std::thread::sleep(std::time::Duration::from_micros(300));   // distinct creation times
+        start = *c;
+    }
+    std::fs::write(format!("{}/oplog-nun.op", dir), &bytes[start * 25..]).map_err(|e| e.to_string())?;
     let mut v: Violations = vec![];
     let r = match catch_unwind(AssertUnwindSafe(|| read_operations_since(since))) { Ok(r) => r, Err(_) => { v.push("C10.safety".into()); return Ok(v); } };
     for (i, t) in times.iter().enumerate() {
@@ -396,7 +407,7 @@ fn scenario_oplog(sc: &str) -> Result<Violations, String> {
         }
     }
     let lt = Oplog::last_op_time();
-    chk(&mut v, "C12.last-op-time", lt == times.last().cloned().unwrap_or(0));
+    if cuts.is_empty() || start < times.len() { chk(&mut v, "C12.last-op-time", lt == times.last().cloned().unwrap_or(0)); }
     Ok(v)
 }
 fn all_oplog_scenarios() -> Vec<String> {
@@ -412,6 +423,13 @@ fn all_oplog_scenarios() -> Vec<String> {
         for gap in [0u64, 1, 2] { cur.push(last + gap); rec(cur, depth - 1, out); cur.pop(); }
     }
     rec(&mut vec![], if deep() { 8 } else { 6 }, &mut out);
+    // rotated logs: the same record lists (up to 4 / deep 5 records) cut into one or two rotated files plus the live file
+    let mut rot = vec![];
+    rec(&mut vec![], if deep() { 5 } else { 4 }, &mut rot);
+    for sc in rot {
+        let n = sc.split('|').next().unwrap().split('.').filter(|x| !x.is_empty()).count();
+        for c1 in 1..=n { out.push(format!("{}|{}", sc, c1)); for c2 in c1 + 1..=n { out.push(format!("{}|{}.{}", sc, c1, c2)); } }
+    }
     out
 }
 
@@ -1108,6 +1126,15 @@ fn families() -> Vec<(&'static str, fn() -> Vec<String>, fn(&str) -> Result<Viol
          ("resync", all_resync_scenarios, scenario_resync),
          ("permchange", all_permchange_scenarios, scenario_permchange)]
 }
+/// the properties whose clause labels a family can report (every family reports C10.safety when a call panics, so C10 runs them all)
+fn family_props(fam: &str) -> &'static [&'static str] {
+    match fam {
+        "store" => &["C01", "C02", "C03", "C08"], "strategy" => &["C02", "C13", "C19"], "pending" => &["C15"], "ids" => &["C16"], "keymap" => &["C16"],
+        "oplog" => &["C12"], "session" => &["C01", "C08", "C09"], "permchange" => &["C09"], "arbiter" => &["C13"], "watch" => &["C03"], "lines" => &[], "flood" => &[],
+        "connections" => &["C17"], "snapshot" => &["C01", "C06"], "resync" => &["C05"], "election" => &["C07"], "http" => &["C20"],
+        _ => &[],
+    }
+}
 
 fn main() {
     std::panic::set_hook(Box::new(|_| {}));
@@ -1155,6 +1182,8 @@ fn main() {
             let mut first: Vec<(String, String)> = vec![];
             let mut per_family: Vec<(String, usize)> = vec![];
             for (fam, gen, run) in families() {
+                // only the families that can report a clause of this property are run (C10: all of them - any call may panic)
+                if label != "C10" && !family_props(fam).contains(&label) { continue; }
                 let scs = gen();
                 per_family.push((fam.to_string(), scs.len()));
                 for sc in scs {
